@@ -75,6 +75,10 @@ Section LeafList.
   Hypothesis Hold : Forall (leafT T) oldE.
   Hypothesis Hnew : Forall (leafT T) newE.
   Variable P : path.
+  (** any property shared by the members of both lists holds of the members of the result *)
+  Variable Q : elem -> Prop.
+  Hypothesis HQold : Forall Q oldE.
+  Hypothesis HQnew : Forall Q newE.
 
   Lemma leafT_tag l : Forall (leafT T) l -> Forall (fun c => e_tag c = T) l.
   Proof. apply Forall_impl. now intros a [H _]. Qed.
@@ -91,12 +95,13 @@ Section LeafList.
     e_children e = D ++ dropZ oi oldE -> located P ctx (sig_of e) ->
     exists ops R, leaflist_ops P oldE newE s oi (ni - oi) = Ok ops
       /\ apply_ops ops (plug ctx e) = Some (plug ctx (set_children e (D ++ R)))
-      /\ Forall2 leaf_same R (dropZ ni newE).
+      /\ Forall2 leaf_same R (dropZ ni newE) /\ Forall Q R.
   Proof.
     induction s as [|d s IH]; intros oi ni D ctx e HV Hoi Hni HD HlD HC HL.
     - cbn [valid_from] in HV. exists [], (dropZ oi oldE). cbn [leaflist_ops apply_ops]. repeat split.
       + rewrite <- HC. now destruct e.
       + now apply list_eqb_Forall2.
+      + now apply Forall_dropZ.
     - cbn [valid_from] in HV. set (k := m_old d - oi) in *.
       repeat (apply andb_true_iff in HV; destruct HV as [HV ?]).
       rename H into Hrest, H0 into Hkeep, H1 into Hkf, H2 into Hke.
@@ -128,7 +133,7 @@ Section LeafList.
         destruct Hxl as [HxT Hxp]. rewrite (calcAddr_positional x _ Hxp), HxT.
         replace (m_old d + (ni - oi)) with (lenZ D') by lia.
         set (e1 := set_children e (D' ++ E'')).
-        destruct (IH (m_old d + 1) (ni + k) D' ctx e1) as (ops & R & Hops & Happ & HR).
+        destruct (IH (m_old d + 1) (ni + k) D' ctx e1) as (ops & R & Hops & Happ & HR & HQR).
         * replace (dropZ (m_old d + 1) oldE) with E'' by (rewrite HE''; f_equal; lia).
           rewrite <- HdF. exact Hrest.
         * lia.
@@ -147,6 +152,7 @@ Section LeafList.
              cbn [obind]. rewrite remove_nth_app. fold e1. rewrite Happ. unfold e1, D'.
              now rewrite set_children_twice, <- app_assoc.
           -- rewrite <- (takeZ_dropZ k F). apply Forall2_app; [exact Hkeep2|]. rewrite HdF. exact HR.
+          -- apply Forall_app. split; [apply Forall_takeZ, Forall_dropZ, HQold|exact HQR].
       + (* insert *)
         apply andb_true_iff in Hrest. destruct Hrest as [Hnew' Hrest].
         destruct (dropZ k F) as [|y F''] eqn:EdF; [discriminate|].
@@ -159,7 +165,10 @@ Section LeafList.
         destruct Hyl as [HyT Hyp].
         replace (m_old d + (ni - oi)) with (lenZ D') by lia.
         set (e1 := set_children e (D' ++ y :: dropZ k E)).
-        destruct (IH (m_old d) (ni + k + 1) (D' ++ [y]) ctx e1) as (ops & R & Hops & Happ & HR).
+        assert (HQy : Q y).
+        { eapply Forall_forall; [exact HQnew|]. destruct (nthZ_split _ _ _ Hy) as (A & B & -> & _).
+          apply in_or_app; right; left; reflexivity. }
+        destruct (IH (m_old d) (ni + k + 1) (D' ++ [y]) ctx e1) as (ops & R & Hops & Happ & HR & HQR).
         * replace (dropZ (ni + k + 1) newE) with F'' by exact HF''.
           replace (dropZ (m_old d) oldE) with (dropZ k E) by (rewrite HdE; f_equal; lia). exact Hrest.
         * lia.
@@ -176,10 +185,12 @@ Section LeafList.
             unfold leaf_same, equalLeafs. rewrite !seqb_refl. cbn [andb].
             apply list_eqb_Forall2. clear. induction (e_attrs y); constructor; [|assumption].
             now rewrite !seqb_refl. }
+          assert (HQfin : Forall Q (takeZ k E ++ y :: R)).
+          { apply Forall_app. split; [apply Forall_takeZ, Forall_dropZ, HQold|constructor; assumption]. }
           destruct (lenZ D' =? 0) eqn:E0.
           -- (* prepend *)
              assert (D' = []) by (apply lenZ_zero_nil; lia).
-             exists (OAdd P Prepend y :: ops), (takeZ k E ++ y :: R). repeat split; [|exact Hfin].
+             exists (OAdd P Prepend y :: ops), (takeZ k E ++ y :: R). repeat split; [|exact Hfin|exact HQfin].
              cbn [apply_ops apply_op]. rewrite (at_elem_located P ctx e _ HL). cbn [obind].
              rewrite HC'. unfold e1 in Happ. rewrite H in *. cbn [app] in *. rewrite Happ.
              rewrite set_children_twice. do 3 f_equal.
@@ -189,7 +200,7 @@ Section LeafList.
           -- (* after the previous element *)
              rewrite (calcAddr_positional y _ Hyp), HyT.
              exists (OAdd (P ++ [mkStep T (PIdx (lenZ D' - 1 + 1))]) After y :: ops), (takeZ k E ++ y :: R).
-             repeat split; [|exact Hfin].
+             repeat split; [|exact Hfin|exact HQfin].
              cbn [apply_ops apply_op]. rewrite (at_parent_located P ctx e _ _ HL), HC'.
              rewrite find_child_positional.
              2:{ apply leafT_tag. apply Forall_app; split; [exact HD'|]. rewrite HdE. apply Forall_dropZ, Hold. }
@@ -205,10 +216,10 @@ Section LeafList.
     e_children e = oldE -> located P ctx (sig_of e) ->
     exists ops R, leaflist_ops P oldE newE s 0 0 = Ok ops
       /\ apply_ops ops (plug ctx e) = Some (plug ctx (set_children e R))
-      /\ Forall2 leaf_same R newE.
+      /\ Forall2 leaf_same R newE /\ Forall Q R.
   Proof.
     intros s ctx e HV HC HL.
-    destruct (leaflist_ops_sound s 0 0 [] ctx e) as (ops & R & H1 & H2 & H3).
+    destruct (leaflist_ops_sound s 0 0 [] ctx e) as (ops & R & H1 & H2 & H3 & H4).
     - now rewrite !dropZ_0.
     - lia.
     - lia.
